@@ -874,15 +874,15 @@ def _make_ffi_library(ffi, libname, flags):
             return
         #
         for key, (tp, _) in ffi._parser._declarations.items():
-            if not isinstance(tp, model.EnumType):
-                tag, name = key.split(' ', 1)
-                if tag == 'function':
-                    accessors[name] = accessor_function
-                elif tag == 'variable':
-                    accessors[name] = accessor_variable
-                elif tag == 'constant':
-                    accessors[name] = accessor_constant
-            else:
+            tag, name = key.split(' ', 1)
+            # (a variable or constant can be of an enum type too)
+            if tag == 'function':
+                accessors[name] = accessor_function
+            elif tag == 'variable':
+                accessors[name] = accessor_variable
+            elif tag == 'constant':
+                accessors[name] = accessor_constant
+            elif isinstance(tp, model.EnumType):
                 for i, enumname in enumerate(tp.enumerators):
                     def accessor_enum(name, tp=tp, i=i):
                         tp.check_not_partial()
